@@ -170,6 +170,11 @@ def finish(prop, tier, seed, packs, results, t0, a):
                         if t_.replay and o["name"].startswith(prop + "." + t_.name + "."):
                             if best is None or len(t_.name) > len(best.name):
                                 best = t_
+                if best is None:
+                    for p_ in packs:
+                        for t_ in p_.tasks:
+                            if t_.replay and t_.fn and t_.fn in o["name"]:
+                                best = t_
                 if best is not None:
                     confirmed, info = best.replay(o, REPO)
                     rep["native"] = info
